@@ -147,14 +147,17 @@ impl Replay {
     }
 
     /// decode `wire` under all plans and compare with `exp`; then every truncation must be a read error
-    fn check_decode(&mut self, which: u8, wire: &[u8], hdr_len: usize, exp: &RawFrame, ctxv: &Value) {
+    /// `nonmin`: the wire uses a longer length form than needed - WsFrame!NonMinimalMayBeRefused: it may be decoded or refused
+    fn check_decode(&mut self, which: u8, wire: &[u8], hdr_len: usize, exp: &RawFrame, ctxv: &Value, nonmin: bool) {
         let pl = plans(wire.len(), hdr_len, &mut self.rng);
         let part = match which { 0 => &mut self.frames, _ => &mut self.hdrs };
         for cuts in &pl {
             let g = decode_with(wire, cuts);
             part.evals += 1;
             let (content, exact) = judge(&g, exp, wire.len());
-            if !content {
+            if nonmin && matches!(&g, Got::Err(_)) {
+                part.odd(json!({"what": "complete frame in a non-minimal length form refused", "case": ctxv, "wire": hex(wire), "got": got_json(&g)}));
+            } else if !content {
                 part.bad(json!({"what": "decode of a complete frame", "case": ctxv, "wire": hex(wire), "cuts": cuts.iter().take(8).collect::<Vec<_>>(),
                     "expected": short(exp), "got": got_json(&g)}));
                 break;
@@ -177,6 +180,7 @@ impl Replay {
         match r {
             Ok((Ok(a), Ok(b), Err(c), pos)) if norm(a.clone()) == *exp && norm(b.clone()) == *exp && c == "ReadError" && pos == twice.len() => {}
             // the first frame is right: what happens to the bytes behind it is beyond the statement (drift)
+            Ok((Err(_), _, _, _)) if nonmin => {}
             Ok((Ok(a), b, c, pos)) if norm(a.clone()) == *exp =>
                 part.odd(json!({"what": "two frames back to back: the first decodes, the continuation differs", "case": ctxv,
                     "got": format!("{:?}", (b.map(|f| f.length), c.map(|f| f.length), pos))})),
@@ -232,7 +236,7 @@ impl Replay {
         // 2. decoder: same frame, payload unmasked, under every split / truncation
         let exp = RawFrame { fin, rsv, opcode: op, mask, length: len as u64, masking_key: if mask { key } else { [0; 4] },
                              payload: if mask { self.unmask(&p, &key) } else { p.clone() } };
-        self.check_decode(0, &wire, hdr.len(), &exp, &ctxv);
+        self.check_decode(0, &wire, hdr.len(), &exp, &ctxv, false);
         // 2b. the previous (different) frame and this one on the same connection: the first must not eat into the second
         if let Some((pw, pexp)) = self.prev.take() {
             let mut both = pw.clone();
@@ -391,7 +395,8 @@ impl Replay {
             }
             self.hdrs.nontrivial += 1;
             let exp = RawFrame { fin, rsv, opcode: op, mask, length: plen as u64, masking_key: key, payload: if mask { self.unmask(&p, &key) } else { p.clone() } };
-            self.check_decode(1, &wire, hdr_len, &exp, &ctxv);
+            let nonmin = plen < e["minlen"].as_u64().unwrap() as usize;
+            self.check_decode(1, &wire, hdr_len, &exp, &ctxv, nonmin);
         }
     }
 
@@ -403,6 +408,7 @@ impl Replay {
         let used = e["used"].as_u64().unwrap() as usize;
         let expf = RawFrame { fin: bit(&f["fin"]), rsv: rsv_of(&f["rsv"]), opcode: f["op"].as_u64().unwrap() as u8, mask: bit(&f["mask"]),
                               length: f["len"].as_u64().unwrap(), masking_key: key_of(&f["key"]), payload: u8s(&f["payload"]) };
+        let nonmin = v["nonmin"].as_bool().unwrap();
         let mut pl: Vec<Vec<usize>> = vec![vec![]];
         for k in 1..w.len() { pl.push(vec![k]); }
         pl.push(all_ones(w.len()));
@@ -412,6 +418,7 @@ impl Replay {
             self.wires.evals += 1;
             let ok = match (r, &g) {
                 ("ok", Got::Ok(gf, _)) => norm(gf.clone()) == expf,
+                ("ok", Got::Err(_)) => nonmin,      // NonMinimalMayBeRefused
                 ("ReadError", Got::Err(s)) => s == "ReadError",
                 ("InvalidOpcode", Got::Err(_)) | ("EitherError", Got::Err(_)) => true,
                 _ => false,
@@ -421,7 +428,7 @@ impl Replay {
                 break;
             }
             // stricter than the statement: bytes consumed, and which error rejects a reserved opcode
-            let strict = match (r, &g) { ("ok", Got::Ok(_, gu)) => *gu == used, ("InvalidOpcode", Got::Err(s)) => s == "InvalidOpcode", _ => true };
+            let strict = match (r, &g) { ("ok", Got::Ok(_, gu)) => *gu == used, ("ok", Got::Err(_)) => false, ("InvalidOpcode", Got::Err(s)) => s == "InvalidOpcode", _ => true };
             if !strict { self.wires.odd(json!({"what": "outcome allowed by the statement but not the model's", "wire": w, "cuts": cuts, "spec": e, "got": got_json(&g)})); }
         }
         if self.wires.samples.len() < 3 && r == "ok" && expf.mask && expf.length == 2 && w.len() == used + 1 {
